@@ -16,12 +16,12 @@
     * C10_identifiers_unique_valid    generated names are pairwise distinct valid symbols, MIN/MAX
                                       bracket each group, numbers run from 1
     * C10_linker_idempotent_query     queries leave no trace (true after fix 795bab9)
-    * C10_pcm_region_sound_partial    one PCM header re-homed by add_song: the bank entry is the
-                                      header of a window whose bytes are the sample's — PARTIAL:
-                                      extra hypotheses `start = 0` (known finding D11), fewer
+    * C10_pcm_region_sound_partial    one PCM header (any start offset) re-homed by add_song: the
+                                      bank entry is the header of a window whose bytes are the
+                                      sample's playback window — PARTIAL: extra hypotheses fewer
                                       than 65535 sample headers (uint16_t index) and the allocator
                                       invariant of C14 for the current wave bank
-    * C10_offset_window_counterexample  the D11 witness
+    * C10_offset_window_regression    the former D11 witness on the repaired linker
   `C10_full_statement` keeps the whole-history statement against the spec resolver; what is
   missing from it is said there.
 -/
@@ -352,22 +352,22 @@ theorem C10_linker_idempotent_query (ops : List Op) (l : Linker) :
         | error e => rfl
         | ok l' => exact ih l'
 
-/-- One PCM header re-homed by add_song (PARTIAL: start offset 0 — known finding D11 —, fewer than
+/-- One PCM header, with ANY start offset, re-homed by add_song (PARTIAL: fewer than
 65535 sample headers so that the `uint16_t` index is exact, and a wave bank satisfying C14's
-allocator invariant, which every bank reached from `Bank.new` by such additions does).  After a successful `addPcmh`: the wave bank holds a sample `h2` whose window
-`[position, position + size)` shows exactly the bytes `pcmd[position₀, position₀ + size)` the
-song's header addressed; the patch entry's data-bank entry is `pcmHeader h2`, i.e. that address
+allocator invariant, which every bank reached from `Bank.new` by additions does).  After a successful `addPcmh`: the wave bank holds a sample `h2` whose window
+`[position, position + size)` (its start offset is 0) shows exactly the bytes
+`pcmd[position₀ + start₀, position₀ + start₀ + size)` the song's header addressed; the patch entry's data-bank entry is `pcmHeader h2`, i.e. that address
 (with the pitch code of the song's rate) and that size; the invariant is kept and no byte of any
 window handed out earlier changes. -/
 theorem C10_pcm_region_sound_partial (sdata seqLen : Nat) (pcmd data : Bytes) (a a' : Acc) (rs : List Alloc.Win)
     (header : Wave.Sample) (hh : Wave.Sample.fromBytes (data.drop 4) = some header)
-    (hstart : header.start = 0) (hsmall : header.size < 1073741824) (hnd : a.bank.Nodup)
+    (hsmall : header.size < 1073741824) (hnd : a.bank.Nodup)
     (hcount : a.wave.samples.length < 65535)
     (inv : Wave.Inv a.wave rs) (h : addPcmh sdata seqLen pcmd data a = .ok a') :
     ∃ (h2 : Wave.Sample) (idx addr : Nat) (rs' : List Alloc.Win),
       a'.patch = a.patch ++ [(addr, idx % 65536)] ∧ a'.bank[idx]? = some (pcmHeader h2) ∧ a'.bank.Nodup ∧
       h2 ∈ a'.wave.samples ∧ h2.start = 0 ∧ h2.size = header.size ∧ h2.rate = header.rate ∧
-      Alloc.Win.reads a'.wave.rom ⟨h2.position, h2.size⟩ = LinkSpec.readAt pcmd header.position header.size ∧
+      Alloc.Win.reads a'.wave.rom ⟨h2.position, h2.size⟩ = LinkSpec.readAt pcmd (header.position + header.start) header.size ∧
       Wave.Inv a'.wave rs' ∧
       (∀ s ∈ a.wave.samples, (Wave.Sample.win s).reads a'.wave.rom = (Wave.Sample.win s).reads a.wave.rom) := by
   unfold addPcmh at h
@@ -390,10 +390,10 @@ theorem C10_pcm_region_sound_partial (sdata seqLen : Nat) (pcmd data : Bytes) (a
           · rename_i h2 hget
             simp only [Except.ok.injEq] at h
             subst h
-            have hlen : ((pcmd.drop header.position).take header.size).length = header.size := by
+            have hlen : ((pcmd.drop (header.position + header.start)).take header.size).length = header.size := by
               simp only [List.length_take, List.length_drop]; omega
-            have adm : Wave.Adm a.wave { header with position := 0 } ((pcmd.drop header.position).take header.size) :=
-              ⟨by simp only [hstart, hlen]; omega, by rw [hlen]; exact hsmall, fun _ => hstart⟩
+            have adm : Wave.Adm a.wave { header with position := 0, start := 0 } ((pcmd.drop (header.position + header.start)).take header.size) :=
+              ⟨by rw [hlen]; exact hsmall⟩
             have so := Wave.addSample_step a.wave rs _ _ w sidx inv adm hadd
             obtain ⟨s0, hs0, hread, hst, hsz, hrt⟩ := so.entry
             -- the index is below 65536 or not: in both cases `h2` is a sample of the new bank
@@ -406,11 +406,12 @@ theorem C10_pcm_region_sound_partial (sdata seqLen : Nat) (pcmd data : Bytes) (a
             have es : s0 = h2 := by rw [hs0] at hget; exact Option.some.inj hget
             subst es
             refine ⟨s0, (addUnique a.bank (pcmHeader s0)).1, _, _, rfl, ustd.1, ustd.2.2.1, hmem, ?_, hsz, hrt, ?_, so.inv, ?_⟩
-            · rw [hst]; exact hstart
-            · have : Wave.Sample.win s0 = ⟨s0.position, s0.size⟩ := by
-                simp only [Wave.Sample.win, hst, hstart, Nat.add_zero]
+            · rw [hst]; simp
+            · have hst0 : s0.start = 0 := by rw [hst]; simp
+              have : Wave.Sample.win s0 = ⟨s0.position, s0.size⟩ := by
+                simp only [Wave.Sample.win, hst0, Nat.add_zero]
               rw [← this, hread]
-              simp only [hstart, List.drop_zero, LinkSpec.readAt]
+              simp only [List.drop_zero, LinkSpec.readAt]
               rw [List.take_take, Nat.min_self]
             · intro s hs
               obtain ⟨r, hr, g1, g2⟩ := inv.housed s hs
@@ -425,18 +426,19 @@ def d11Result : Acc := match addPcmh 8 16 d11Pcmd d11Entry d11Acc with
   | .ok a => a
   | .error _ => d11Acc
 
-/-- D11 seen through the linker (the hypothesis `start = 0` of `C10_pcm_region_sound_partial` is
-needed): a header with start offset 4 and size 12 over `pcmd = 10 … 2f` addresses the bytes
-`14 … 1f`; add_song stores `10 … 1b` (12 bytes, used size 12) and emits a PCM header with address
-4 and size 12, a window that runs past the used PCM bank and does not show the sample. -/
-theorem C10_offset_window_counterexample :
+/-- the former D11 witness on the repaired linker (regression): a header with start offset 4 and
+size 12 over `pcmd = 10 … 2f` addresses the bytes `14 … 1f`.  Before the repair add_song stored
+`10 … 1b` and emitted a PCM header with address 4, a window running past the used PCM bank.  Now it
+stores `14 … 1f` (12 bytes, used size 12) and emits the header address 0 (pitch code 4), size 12:
+the linked window shows the sample. -/
+theorem C10_offset_window_regression :
     addPcmh 8 16 d11Pcmd d11Entry d11Acc = .ok d11Result ∧
-    d11Result.bank = [[4, 0, 0, 4, 0, 0, 0, 12]] ∧ d11Result.wave.currentSize = 12 ∧
-    LinkSpec.readAt (d11Result.wave.rom.take d11Result.wave.currentSize) 4 12 ≠ LinkSpec.readAt d11Pcmd 4 12 := by
+    d11Result.bank = [[4, 0, 0, 0, 0, 0, 0, 12]] ∧ d11Result.wave.currentSize = 12 ∧
+    LinkSpec.readAt (d11Result.wave.rom.take d11Result.wave.currentSize) 0 12 = LinkSpec.readAt d11Pcmd 4 12 := by
   refine ⟨rfl, by decide, by decide, by decide⟩
 
 /-- The full statement of C10 over the model, kept for the record: for every list of well-formed
-MDS files (as read by the spec's own reader, PCM start offsets 0) that the linker accepts, the
+MDS files (as read by the spec's own reader, any PCM start offsets) that the linker accepts, the
 spec resolver accepts the linked sequence bank with the linked PCM bank, and the header reader
 accepts both headers.  Proved of it (theorems above): the layout of get_seq_data for every linker
 state (songs found through the table, bytes unchanged outside slots, every slot relocated to its
@@ -451,7 +453,6 @@ PCM headers (equal headers ⇔ equal window and pitch code). -/
 def C10_full_statement : Prop :=
   ∀ (files : List (Bytes × Bytes)) (songs : List LinkSpec.SongIn) (l : Linker) (bank : Bytes),
     files.map (fun f => LinkSpec.parseMds f.2) = songs.map some →
-    (∀ s ∈ songs, ∀ sl ∈ s.slots, sl.start = 0) →
     runOps (files.map fun f => Op.add f.1 f.2) Linker.new = .ok l → getSeqData l = .ok bank →
     LinkSpec.resolveBank songs bank (getPcmData l) = .ok () ∧
     ∃ a c, asmHeader l = some a ∧ cHeader l = some c ∧ LinkSpec.resolveHeaders songs a c = .ok ()
